@@ -79,6 +79,7 @@ void gen_c18(Plan &p, Rng &r, bool thorough) {
   // above 11 bytes): whatever the library sets up on first use of a path is then set up while others are on it
   const bool all_fit_long = r.chance(1, 8);
   const bool shared_file = r.chance(1, 5);
+  const bool long_names = r.chance(1, 3);
   std::vector<std::string> longs;
   if (all_fit_long)
     for (int len = 12; len <= 15; len++)
@@ -172,6 +173,8 @@ void gen_c18(Plan &p, Rng &r, bool thorough) {
         t.ops.push_back(a);
         Op b = mk(OP_BIN_FILE, 0);
         b.path = "/sim/t" + std::to_string(ti) + "_" + std::to_string(l) + ".bin";
+        if (long_names)  // the callers' targets differ only behind a long common beginning
+          b.path = "/sim/output_of_one_of_several_callers_working_side_by_side_in_this_process_caller_" + std::to_string(ti) + "_" + std::to_string(l) + ".bin";
         t.ops.push_back(b);
       }
       t.ops.push_back(mk(OP_DESTROY, 0));
@@ -183,6 +186,43 @@ void gen_c18(Plan &p, Rng &r, bool thorough) {
   std::vector<long> steps = cal.task_steps;
   steps.resize((size_t)ntasks, 1000);
   unsigned style = (unsigned)r.below(10);
+  // rendezvous: the callers are parked at the beginning of an operation of the same rare kind (binary output, a file
+  // entry point, create, destroy) and then take turns every few yield points inside it - what such operations share is
+  // hardly ever touched by two callers at once under uniformly placed preemptions
+  if (r.chance(1, 5) && cal.op_starts.size() == (size_t)ntasks) {
+    static const int kinds[] = {OP_BIN_FILE, OP_ASM_FILE, OP_CREATE, OP_DESTROY, OP_BIN_FILE};
+    int K = kinds[r.below(5)];
+    std::vector<std::pair<long, long>> win((size_t)ntasks, {-1, -1});
+    int have = 0;
+    for (int ti = 0; ti < ntasks; ti++) {
+      const std::vector<Op> &ops = p.tasks[(size_t)ti].ops;
+      const std::vector<long> &st = cal.op_starts[(size_t)ti];
+      std::vector<size_t> cand;
+      for (size_t oi = 0; oi < ops.size() && oi < st.size(); oi++)
+        if (ops[oi].kind == K || (K == OP_ASM_FILE && ops[oi].kind == OP_COUNT_FILE)) cand.push_back(oi);
+      if (cand.empty()) continue;
+      size_t oi = cand[r.below(cand.size())];
+      long b = st[oi], e = oi + 1 < st.size() ? st[oi + 1] : steps[(size_t)ti];
+      if (e <= b) continue;
+      win[(size_t)ti] = {b, e};
+      have++;
+    }
+    if (have >= 2) {
+      long gap = (long)r.range(1, 4);
+      for (int ti = 0; ti < ntasks; ti++) {
+        if (win[(size_t)ti].first < 0) continue;
+        int guard = 0;
+        for (long at = win[(size_t)ti].first; at < win[(size_t)ti].second && guard++ < 400; at += gap) {
+          Preempt pr;
+          pr.task = ti;
+          pr.at = at;
+          pr.to = (int)r.below(8);
+          p.preempt.push_back(pr);
+        }
+      }
+      return;
+    }
+  }
   if (style < 6) {
     // Bernoulli preemption with a per-run probability
     static const long dens[] = {10, 30, 100, 300, 1000, 5000};
